@@ -11,7 +11,7 @@ LEVEL = "exploration"
 RULE = (
     "Hypothesis draws free profiles with independent Kx != Ky != Kz and oblique/turning winds (also closures and constants), "
     "non-square grids nx != ny with dx != dy, mode counts below/at/above/default, 1..2 levels, a source, an on-grid tower, "
-    "footprint or dispersion, and scale factors s,a = 2^k (k in -6..6) or arbitrary in [0.01,100]. Oracles: (1) x-mirror and "
+    "footprint or dispersion (measurement point at the origin or on a grid node), and scale factors s,a = 2^k (k in -27..27) or arbitrary in [1e-7,1e7]. Oracles: (1) x-mirror and "
     "(2) y-mirror of the problem (source mirrored about cell 0 on the periodic domain, that wind component negated, tower mirrored) "
     "give mirrored fields - compared on the Fourier components strictly inside the retained band |k| < min(modes, N)/2 (the property "
     "excepts Nyquist components); (3) transposed problem (source.T, (u,v),(Kx,Ky),(xmax,ymax),(nlx,nly), tower swapped) gives "
@@ -45,8 +45,10 @@ def _case(draw):
     case["footprint"] = draw(st.booleans())
     case["bg"] = draw(st.sampled_from([0.0, 2.0]))
     pw = st.integers(-6, 6).map(lambda k: float(2.0**k))
-    case["s"] = draw(st.one_of(pw, gen.logfl(0.01, 100.0)))
-    case["a"] = draw(st.one_of(pw, gen.logfl(0.01, 100.0)))
+    wide = st.integers(-27, 27).map(lambda k: float(2.0**k))  # several decades: 7e-9 .. 1e8
+    case["s"] = draw(st.one_of(pw, wide, gen.logfl(0.01, 100.0), gen.logfl(1e-7, 1e7)))
+    case["a"] = draw(st.one_of(pw, wide, gen.logfl(0.01, 100.0), gen.logfl(1e-7, 1e7)))
+    case["recentre"] = draw(st.booleans())  # dispersion runs re-centred on the (on-grid) tower
     return case
 
 
@@ -79,9 +81,11 @@ def check_case(case):
     out.label(f"prof={case['prof']['kind']}", "footprint" if fpm else "dispersion", f"halo={case['halo']['kind']}",
               "s=pow2" if np.log2(case["s"]).is_integer() else "s=arbitrary")
 
-    def run(q, prof_, dom_, modes_, tower, halo, z_=z, bg_=bg):
+    def run(q, prof_, dom_, modes_, tower, halo, z_=z, bg_=bg, recentre=False):
         ddx, ddy = dom_[0] / q.shape[1], dom_[1] / q.shape[0]
-        mp = (tower[0] * ddx, tower[1] * ddy) if fpm else (0.0, 0.0)
+        # (re-centred dispersion output is registered relative to the tower: only the similarity relations, which
+        #  keep the geometry, are checked in that mode; mirrors and the axis swap use the un-shifted field)
+        mp = (tower[0] * ddx, tower[1] * ddy) if (fpm or recentre) else (0.0, 0.0)
         _, c, f = sut.S(q, z_, prof_, dom_, lv, modes=modes_, meas_pt=mp, srf_bg_conc=bg_, footprint=fpm,
                         halo=halo, precision="double")
         return sut.as3d(c), sut.as3d(f)
@@ -142,8 +146,12 @@ def check_case(case):
 
     # ---- similarity in lengths: x, y, z, halo, meas_pt and K times s
     s = case["s"]
+    rc = bool(case.get("recentre")) and not fpm
+    if rc:
+        ch, fh = run(q0, prof, dom, mh, (im, jm), hv, recentre=True)
+        out.label("similarity-on-recentred-dispersion")
     cs, fs = run(q0, (u, v, s * Kx, s * Ky, s * Kz), (dom[0] * s, dom[1] * s), mh, (im, jm),
-                 None if hv is None else hv * s, z_=z * s)
+                 None if hv is None else hv * s, z_=z * s, recentre=rc)
     # the claim presupposes the same halo in cells: int(halo/dx) may flip at a whole-number boundary under rounding
     def pads(dom_, hv_):
         h = max(dom_) if hv_ is None else hv_
@@ -161,7 +169,7 @@ def check_case(case):
 
     # ---- similarity in velocity: winds and K times a
     a_ = case["a"]
-    ca, fa = run(q0, (a_ * u, a_ * v, a_ * Kx, a_ * Ky, a_ * Kz), dom, mh, (im, jm), hv, bg_=bg / a_)
+    ca, fa = run(q0, (a_ * u, a_ * v, a_ * Kx, a_ * Ky, a_ * Kz), dom, mh, (im, jm), hv, bg_=bg / a_, recentre=rc)
     err = tol.maxabs(fh - fa)
     if not err <= rel * max(tol.maxabs(fh), fs0):
         out.bad(f"velocity similarity: flux changes by {err:.3e} when winds and K are multiplied by {a_}")
